@@ -59,6 +59,8 @@ package version
 //@ define vpart(s, k) uf("verPart", "", s, k)
 //@ define vnum(s, k) ite(k < vcnt(s), nth(0, strconv.Atoi(vpart(s, k))), 0)
 //@ define vN(a, b) ite(vcnt(a) >= vcnt(b), vcnt(a), vcnt(b))
+//@ define vbad(s, k) (k < vcnt(s) && nth(1, strconv.Atoi(vpart(s, k))) != nil)
+//@ ghost convAt int
 
 //@ extern regexp (*Regexp).FindAllString
 //@ fresh
@@ -93,7 +95,9 @@ package version
 //@ loop 2 invariant (0 <= j && j < vcnt(b)) ==> partsB[j] == vpart(b, j)
 //@ loop 2 invariant (vcnt(b) <= j && j < vN(a, b)) ==> partsB[j] == "0"
 //@ loop 2 invariant (0 <= j && j <= rangeindex) ==> (numericA[j] == vnum(a, j) && numericB[j] == vnum(b, j))
+//@ loop 2 invariant (0 <= j && j <= rangeindex) ==> (!vbad(a, j) && !vbad(b, j))
 //@ loop 2 instance j = rangeindex + 1
+//@ loop 2 sets ghost.convAt = rangeindex + 1
 // loop 3: compare
 //@ loop 3 invariant -1 <= rangeindex && rangeindex < len(numericA) && len(numericA) == vN(a, b) && len(numericB) == vN(a, b)
 //@ loop 3 invariant (0 <= j && j < vN(a, b)) ==> (numericA[j] == vnum(a, j) && numericB[j] == vnum(b, j))
@@ -105,3 +109,7 @@ package version
 //@ ensures @C30 first-difference-decides: (result1 == nil && ghost.cmpAt < vN(a, b)) ==> (vnum(a, ghost.cmpAt) != vnum(b, ghost.cmpAt) && (result0 <==> vnum(a, ghost.cmpAt) > vnum(b, ghost.cmpAt)))
 //@ ensures @C30 all-equal-is-not-lower: (result1 == nil && ghost.cmpAt == vN(a, b)) ==> result0
 //@ ensures @C30 error-says-false: result1 != nil ==> !result0
+// an error is reported exactly when a component does not convert (ghost witness: the
+// position the converting loop stopped at)
+//@ ensures @C30 error-names-an-unparsable-component: result1 != nil ==> (0 <= ghost.convAt && ghost.convAt < vN(a, b) && (vbad(a, ghost.convAt) || vbad(b, ghost.convAt)))
+//@ ensures @C30 no-error-means-all-convert: (result1 == nil && 0 <= j && j < vN(a, b)) ==> (!vbad(a, j) && !vbad(b, j))
